@@ -93,8 +93,8 @@ def st_element(dtype):
 
 SHAPES = [[], [], [1], [3], [5], [2, 2], [2, 3], [3, 1], [1, 4], [2, 1, 3],
           [2, 2, 2], [1, 2, 1, 2], [2, 1, 2, 2]]
-PRESENT = ["c", "c", "f", "strided", "transposed", "be", "narrow", "scalar",
-           "pyobj", "reuse", "reuse"]
+PRESENT = ["c", "c", "f", "strided", "transposed", "be", "narrow",
+           "narrow-first", "scalar", "pyobj", "reuse", "reuse"]
 BYTES_SPECIAL = [b"", b"\x00", b"\x00\x00", b"abc\x00", b"\x00abc",
                  b"a\x00b\x00", b"\xff\xff", b"\xff\x00", b"x"]
 
@@ -119,7 +119,7 @@ def st_attr(draw, fmt, i, n_examples):
     shape = draw(st.sampled_from(SHAPES))
     present = draw(st.sampled_from(PRESENT))
     src_dtype = dtype
-    if present == "narrow":
+    if present in ("narrow", "narrow-first"):
         if dtype in NARROWER:
             src_dtype = draw(st.sampled_from(NARROWER[dtype]))
         else:
@@ -130,6 +130,15 @@ def st_attr(draw, fmt, i, n_examples):
                           max_size=size).map("".join),
                  min_size=n_examples,
                  max_size=n_examples))
+    if present == "narrow-first":
+        # only the first example arrives in the narrower dtype; the others use
+        # the full range of the declared dtype
+        rest = draw(
+            st.lists(st.lists(st_element(dtype), min_size=size,
+                              max_size=size).map("".join),
+                     min_size=n_examples - 1,
+                     max_size=n_examples - 1))
+        vals = [vals[0]] + rest
     return {
         "name": f"a{i}",
         "dtype": dtype,
@@ -168,6 +177,8 @@ def logical(attr, k):
     if dtype == "str":
         return attr["values"][k], attr["values"][k].encode("utf-8")
     src = np.dtype(attr.get("src_dtype", dtype))
+    if attr.get("present") == "narrow-first" and k > 0:
+        src = np.dtype(dtype)
     raw = bytes.fromhex(attr["values"][k])
     arr = np.frombuffer(raw, dtype=src.newbyteorder("<")).reshape(
         tuple(attr["shape"])).astype(src)  # native, C order
@@ -198,8 +209,8 @@ def present(attr, arr, reuse_buf):
         return np.ascontiguousarray(arr.T).T, "transposed"
     if p == "be":
         return arr.astype(arr.dtype.newbyteorder(">")), "be"
-    if p == "narrow":
-        return arr, "narrow"
+    if p in ("narrow", "narrow-first"):
+        return arr, p
     if p == "scalar" and arr.ndim == 0:
         return arr[()], "scalar"
     if p == "pyobj" and not has_nan(arr) and arr.dtype in (
@@ -271,7 +282,8 @@ def compare(ctx, desc, fmt, attr, got, want: bytes, iface, what):
                             f"{what}: declared {declared} got {g.dtype}")
         gb = np.array(g, order="C").astype(
             declared.newbyteorder("<")).tobytes()
-    if gb != want and attr.get("present") == "narrow" and declared.kind == "f":
+    if gb != want and attr.get("present") in ("narrow", "narrow-first") and \
+            declared.kind == "f":
         # a NaN that went through a WIDENING conversion has no defined payload
         # (numpy and TensorFlow map it differently): NaN-ness must survive,
         # every other element must be bit-identical
@@ -395,6 +407,30 @@ def run_case(case, ctx):
             ctx.count("reads")
             ctx.evaluated()
             ctx.label("reader=" + iface)
+            if iface in ("sync", "concurrent", "async") and case["n"] > 2:
+                # a shuffled pass keeps several shards open at once; every
+                # example must still carry exactly what was written for its id
+                ok, got = oracles.guarded(
+                    ctx, "value", ("read-raised", fmt, iface, "shuffled"),
+                    f"{fmt}/{case['compression']!r} {iface} shuffled",
+                    lambda: dsops.read_all(fresh, "train", iface,
+                                           **{**opts, "shuffle": 5}))
+                if ok:
+                    if sorted(dsops.ex_id_of(e) for e in got) != list(range(n)):
+                        ctx.fail("count", ("example-count", fmt, iface,
+                                           "shuffled"),
+                                 f"{iface} shuffled: ids "
+                                 f"{sorted(dsops.ex_id_of(e) for e in got)}")
+                    for ex in got:
+                        k = dsops.ex_id_of(ex)
+                        if k not in expected:
+                            continue
+                        for a in case["attrs"]:
+                            compare(ctx, desc, fmt, a, ex[a["name"]],
+                                    expected[k][a["name"]], iface,
+                                    f"{fmt}/{case['compression']!r} {iface} "
+                                    f"(shuffled) example {k} attribute "
+                                    f"{a['name']}:{a['dtype']}")
         ctx.label("fmt=" + fmt, *["present=" + p for p in presentations])
         ranks = sorted({len(a["shape"]) for a in case["attrs"]})
         if (presentations - {"c"} or specials or max(ranks) >= 2 or
